@@ -416,6 +416,29 @@ func suiteNumbers(o *suiteOut, r *rng, tier string, n int) {
 		add(randPath(r, r.rangeInt(1, maxLen), 1, span, false))
 	}
 	flush()
+	// 3b. nearly horizontal and nearly vertical steps far from the origin: whether a step may be written with the
+	// one-operand forms (hlineto, vlineto, hvcurveto, vhcurveto) depends on the size of the perpendicular delta, not
+	// on the size of the coordinates
+	for _, base := range []float64{5000, 20000, 300000, -70000, 999000} {
+		for _, eps := range []float64{1e-7, 5e-7, 2e-6, 1e-5, 0.001, 0.004, 0.015, 0.25} {
+			g := &numGlyph{wx: 500}
+			g.cmds = []type1.GlyphOp{
+				{Op: type1.OpMoveTo, Args: []float64{0, base}},
+				{Op: type1.OpLineTo, Args: []float64{100, base + eps}},
+				{Op: type1.OpLineTo, Args: []float64{100 + eps, base + 50}},
+				{Op: type1.OpCurveTo, Args: []float64{150, base + 50 + eps, 200, base + 100, 200 + eps, base + 150}},
+				{Op: type1.OpCurveTo, Args: []float64{200 + 2*eps, base + 200, 250, base + 250, 300, base + 250 + eps}},
+				{Op: type1.OpClosePath},
+				{Op: type1.OpMoveTo, Args: []float64{base, 0}},
+				{Op: type1.OpLineTo, Args: []float64{base + eps, 100}},
+				{Op: type1.OpCurveTo, Args: []float64{base + eps, 150, base + 60, 200, base + 120, 200 + eps}},
+				{Op: type1.OpClosePath},
+			}
+			add(g)
+			o.count("nearly axis-parallel steps far from the origin")
+		}
+	}
+	flush()
 	// 4. long paths (drift): a few per run
 	long := []int{2000}
 	if tier == "thorough" {
